@@ -832,3 +832,627 @@ def c04_huge_compare_oracle(ctx, exe, gen, exprs, meta, lines, impl, units_of):
     ctx.notes.append("stream H: %d judged results (%s), %d failures; %d results with a Natural operand >= 2^63 next to an integral operand are observed only "
                      "(the unchanged code promotes through the signed member, notes/design-expr.md); examples where the code differs from exact arithmetic: %s" % (
                          n, ", ".join("%s:%d" % kv for kv in sorted(per_cls.items())), nbad, obs, "; ".join(obs_wrong) or "none"))
+
+
+# =================================================================================================
+# Narrow-field boundaries (round g).  Every 8- / 16-bit field of the tag records and every SizeT8(...) / SizeT16(...)
+# cast of Template.hpp is driven to limit-1, limit, limit+1 by the template quantity behind it, in every tag kind and
+# position where it occurs, alone and nested once.  The inventory (field, cast site, driving quantity) is NARROW_FIELDS;
+# `narrow_inventory_check` re-derives it mechanically from the headers on every run.
+#
+#   C02: reference expansion (tplspec / tplgroup) as oracle.  A case is JUDGED when every driven quantity is below the
+#        limit of its field; beyond the limit of a field that is narrow in the unchanged tree the deviation is the recorded
+#        finding `name-of-256-units-or-more` (the same rule as narrow_field_probe in checks/c02.py).
+#   C01: the same templates (+ attribute-order / truncated variants) against the Lean parse/render model, which truncates
+#        exactly as the code does (tag dumps compared too); templates of >= 20k units only for faults in the quick tier.
+
+# name -> (limit or None when the field is as wide as SizeT, record.field / cast site, driving template quantity)
+NARROW_FIELDS = {
+    "varLen": (256, "VariableTag::Length (SizeT16) written through `& 0xFF`: Template.hpp parse, case VariableID / RawVariableID", "units of NAME in {var:NAME} / {raw:NAME} (whole path incl. [keys])"),
+    "svarLen": (256, "SuperVariableTag::Variable.Length = SizeT16((offset - svar_id_offset) & 0xFF): case SuperVariableID", "units of the phrase path in {svar:PATH, ...}"),
+    "exprVarLen": (65536, "QExpression Variable.Length = SizeT16(end_offset - offset): parseValue, case BracketStart", "units of NAME in a {var:NAME} operand of {math:} / case="),
+    "setLen": (65536, "LoopTag::Set.Length = SizeT16(offset - att_offset): parseLoopAttributes, case Set", "units of the set=\"...\" text"),
+    "valueOff": (256, "LoopTag::ValueOffset = SizeT8(att_offset - tag.Offset)", "distance from `<loop` to the value=\"...\" text (earlier attributes, padding)"),
+    "valueLen": (256, "LoopTag::ValueLength = SizeT8(offset - att_offset); VariableTag::IDLength (SizeT8) = ValueLength (checkLoopVariable)", "units of the loop value name"),
+    "groupOff": (256, "LoopTag::GroupOffset = SizeT8(att_offset - tag.Offset)", "distance from `<loop` to the group=\"...\" text"),
+    "groupLen": (256, "LoopTag::GroupLength = SizeT8(offset - att_offset)", "units of the group key"),
+    "contentOff": (65536, "LoopTag::ContentOffset = SizeT16(offset - loop_offset): case LoopID", "units of the whole `<loop ...>` head"),
+    "iifLen": (65536, "InLineIfTag::Length = SizeT16(end_offset - tag.Offset): case LineEndID / InLineIf", "units of the whole {if ...} tag"),
+    "trueOff": (65536, "InLineIfTag::TrueOffset = SizeT16(att_offset - tag.Offset), and the provisional SizeT16(offset - iif_offset) of case InLineIfID", "distance from `{if` to the true=\"...\" text (length of the case text / of an earlier false=)"),
+    "trueLen": (65536, "InLineIfTag::TrueLength = SizeT16(offset - att_offset)", "units of the true=\"...\" text"),
+    "falseOff": (65536, "InLineIfTag::FalseOffset = SizeT16(att_offset - tag.Offset)", "distance from `{if` to the false=\"...\" text (length of the true text)"),
+    "falseLen": (65536, "InLineIfTag::FalseLength = SizeT16(offset - att_offset)", "units of the false=\"...\" text"),
+    "options": (None, "LoopTag::Options (SizeT8) |= SortAscend / SortDescend", "not a count: bits 2 and 4 only (repeated sort= attributes)"),
+    "level": (None, "LoopTag::Level / VariableTag::Level (SizeT since 5caf42b; SizeT8 before)", "number of enclosing block tags of a loop"),
+    "startId": (None, "InLineIfTag::TrueTagsStartID / FalseTagsStartID (SizeT32 since 0a7719b; SizeT8 before)", "number of sub tags in the value that comes first"),
+    "svarArgs": (None, "SuperVariableTag::SubTags.Size() / placeholder id (SizeT since the C02-a2 repair)", "number of sub-variables of a {svar:}"),
+    "tagOffset": (None, "VariableTag::Offset, MathTag/SuperVariableTag/InLineIfTag/LoopTag/IfTag/IfTagCase ::Offset / EndOffset (SizeT)", "position of the tag in the template"),
+}
+KNOWN_NARROW_KEY = "name-of-256-units-or-more"
+
+
+def narrow_inventory_check(ctx):
+    """mechanical part of the inventory: every SizeT8 / SizeT16 member of the tag records and every SizeT8( / SizeT16( /
+    `& 0xFF` cast in Template.hpp must be one this module knows; a new one makes the run say so (infrastructure note ->
+    no-failing-input-found), so the table cannot silently go stale."""
+    import os
+    import re
+    known_members = {"VariableTag.Length", "VariableTag.IDLength", "InLineIfTag.Length", "InLineIfTag.TrueOffset", "InLineIfTag.TrueLength",
+                     "InLineIfTag.FalseOffset", "InLineIfTag.FalseLength", "LoopTag.ContentOffset", "LoopTag.ValueOffset", "LoopTag.ValueLength",
+                     "LoopTag.GroupOffset", "LoopTag.GroupLength", "LoopTag.Options"}
+    known_casts = {"tag.Length = SizeT16(end_offset - tag.Offset)", "tag.TrueOffset = SizeT16(att_offset - tag.Offset)", "tag.TrueLength = SizeT16(offset - att_offset)",
+                   "tag.FalseOffset = SizeT16(att_offset - tag.Offset)", "tag.FalseLength = SizeT16(offset - att_offset)", "tag.TrueOffset = SizeT16(true_offset)",
+                   "tag->Length = SizeT16(var_length)", "const SizeT16 var_length = SizeT16((offset - svar_id_offset)", "SizeT16(offset - iif_offset)",
+                   "tag->ContentOffset = SizeT16(offset - loop_offset)", "tag.Set.Length = SizeT16(offset - att_offset)", "tag.ValueOffset = SizeT8(att_offset - tag.Offset)",
+                   "tag.ValueLength = SizeT8(offset - att_offset)", "tag.GroupOffset = SizeT8(att_offset - tag.Offset)", "tag.GroupLength = SizeT8(offset - att_offset)",
+                   "expr.Variable.Length = SizeT16(end_offset - offset)", "& SizeT{0xFF})", "& SizeT(0xFF))"}
+    found_members, found_casts, unknown = set(), [], []
+    try:
+        for fn in ("Tags.hpp", "VariableTag.hpp"):
+            src = open(os.path.join(core.INCLUDE, fn)).read()
+            for m in re.finditer(r"struct (\w+) \{(.*?)\n\};", src, re.S):
+                for f in re.finditer(r"^\s*SizeT(8|16)\s+(\w+)\{", m.group(2), re.M):
+                    found_members.add("%s.%s" % (m.group(1), f.group(2)))
+        tsrc = open(os.path.join(core.INCLUDE, "Template.hpp")).read()
+        for ln in tsrc.split("\n"):
+            code = ln.split("//")[0].strip()
+            if re.search(r"SizeT(8|16)\(|0xFF", code):
+                norm = re.sub(r"\s+", " ", code).rstrip(";")
+                found_casts.append(norm)
+                if not any(k.replace(" ", "") in norm.replace(" ", "") for k in known_casts):
+                    unknown.append(norm)
+    except OSError as e:
+        ctx.infra_errors.append("narrow-field inventory: cannot read the headers: %r" % (e,))
+        return
+    new_members = sorted(found_members - known_members - {"LoopTagOptions.None", "LoopTagOptions.SortAscend", "LoopTagOptions.SortDescend"})
+    if new_members or unknown:
+        ctx.infra_errors.append("narrow-field inventory is stale: members %s, casts %s are not covered by checks/_tmpl_streams.py NARROW_FIELDS" % (new_members, unknown[:6]))
+    widened = sorted(known_members - found_members)
+    ctx.notes.append("narrow-field inventory: %d 8/16-bit members of the tag records, %d narrowing casts in Template.hpp, all known%s" % (
+        len(found_members & known_members), len(found_casts), ("; no longer narrow in this tree: %s" % widened) if widened else ""))
+
+
+def _par(exe, lines, jobs=12, **kw):
+    """core.run_lines_parallel only splits inputs of >= 2000 lines; these streams have few, expensive lines"""
+    from concurrent.futures import ThreadPoolExecutor
+    if len(lines) < 2 * jobs:
+        return core.run_lines(exe, lines, **kw)
+    chunks = [(i, lines[i::jobs]) for i in range(jobs)]
+    with ThreadPoolExecutor(max_workers=jobs) as ex:
+        res = list(ex.map(lambda c: core.run_lines(exe, c[1], **kw), chunks))
+    out, faults = [None] * len(lines), []
+    for (i, _), (o, f) in zip(chunks, res):
+        for k, x in enumerate(o):
+            out[i + k * jobs] = x
+        faults.extend((i + k * jobs, kind, err) for (k, kind, err) in f)
+    return out, faults
+
+
+def _nm(n, c="k"):
+    return c + "a" * (n - 1) if n >= 1 else ""
+
+
+def _tok(kind, s):
+    return kind + dots(U(s))
+
+
+def _count(toks):
+    from checks import c02 as G
+    return G.count_nodes(toks)
+
+
+def _wrap(toks, how):
+    if how == "alone":
+        return list(toks)
+    if how == "in-loop":
+        return ["l%s:%s:%d" % (dots(U("l")), dots(U("W")), _count(toks))] + list(toks)
+    return ["i1", _tok("c", "1"), "b%d" % _count(toks)] + list(toks)
+
+
+WRAPS = ("alone", "in-loop", "in-if")
+N8 = (255, 256, 257)
+N16 = (65535, 65536, 65537)
+
+
+def narrow_cases(thorough=False):
+    """list of dicts: field, q, where, doc (python tree), toks, rewrites [(old text, new text)], quant {field: value},
+    probe (regex on the tag dump whose group must show the driven quantity, or None), group (items doc, key) or None"""
+    cases = []
+    base = [(U("a"), ("n", 5)), (U("b"), ("s", U("<b>"))), (U("l"), ("a", [("n", 1), ("n", 2)])), (U("o"), ("o", [(U("p"), ("n", 7))])),
+            (U("ph"), ("s", U("{0}-{1}")))]
+
+    def add(field, q, where, toks, quant, members=(), rewrites=(), probe=None, group=None, wraps=WRAPS):
+        for how in wraps:
+            cases.append({"field": field, "q": q, "where": "%s, %s" % (where, how), "doc": ("o", list(base) + list(members)), "toks": _wrap(toks, how),
+                          "rewrites": list(rewrites), "quant": dict(quant), "probe": probe, "group": group})
+
+    # ---- F1 varLen: {var:NAME} / {raw:NAME} everywhere a variable tag can stand
+    for q in N8:
+        nm = _nm(q)
+        mem = [(U(nm), ("s", U("V&")))]
+        pv = r"(?:var|raw)\(\d+,(\d+),"
+        add("varLen", q, "{var:NAME}", [_tok("v", nm)], {"varLen": q}, mem, probe=pv)
+        add("varLen", q, "{raw:NAME}", [_tok("r", nm)], {"varLen": q}, mem, probe=pv)
+        add("varLen", q, "{var:NAME} between text and tags", [_tok("x", "["), _tok("v", "a"), _tok("v", nm), _tok("x", "]"), _tok("v", "b")], {"varLen": q}, mem, probe=pv)
+        add("varLen", q, "svar sub-variable", ["s%s:2" % dots(U("ph")), _tok("v", nm), _tok("r", nm)], {"varLen": q}, mem, probe=pv)
+        add("varLen", q, "inline-if true / false value", ["q%s:1:1" % dots(U("1")), _tok("v", nm), _tok("r", nm)], {"varLen": q}, mem, probe=pv)
+        add("varLen", q, "else branch", ["i2", _tok("c", "0"), "b1", _tok("x", "n"), "e", "b1", _tok("v", nm)], {"varLen": q}, mem, probe=pv)
+        # the path NAME[p] / NAME[0] has q units in all
+        nm2 = _nm(q - 3, "j")
+        add("varLen", q, "{var:NAME[p]} (whole path q units)", [_tok("v", nm2 + "[p]"), _tok("r", nm2 + "[p]")], {"varLen": q},
+            [(U(nm2), ("o", [(U("p"), ("s", U("P")))]))], probe=pv)
+        # a loop variable path W[KEY] of q units (loop over an array of objects)
+        key = _nm(q - 3, "m")
+        cases.append({"field": "varLen", "q": q, "where": "{var:W[KEY]} below a loop variable, alone", "doc": ("o", list(base) + [(U("d"), ("a", [("o", [(U(key), ("n", 3))])]))]),
+                      "toks": ["l%s:%s:1" % (dots(U("d")), dots(U("W"))), _tok("v", "W[" + key + "]")], "rewrites": [], "quant": {"varLen": q}, "probe": pv, "group": None})
+    # ---- F2 svarLen
+    for q in N8:
+        nm = _nm(q, "s")
+        add("svarLen", q, "{svar:NAME, ...}", ["s%s:2" % dots(U(nm)), _tok("v", "a"), _tok("r", "b")], {"svarLen": q}, [(U(nm), ("s", U("{1}<{0}>")))],
+            probe=r"svar\(\d+,\d+,\d+,(\d+)\)")
+    # ---- F3 exprVarLen (16 bit): 8-bit values must simply work
+    for q in N8 + (N16 if thorough else (65535, 65536)):
+        nm = _nm(q, "e")
+        mem = [(U(nm), ("n", 4))]
+        ws = WRAPS if q < 1000 else ("alone",)
+        add("exprVarLen", q, "{math:{var:NAME}+1}", [_tok("m", "{var:%s}+1" % nm)], {"exprVarLen": q}, mem, wraps=ws)
+        if q < 1000 or thorough:
+            add("exprVarLen", q, "<if case=\"{var:NAME} == 4\">", ["i2", _tok("c", "{var:%s} == 4" % nm), "b1", _tok("x", "T"), "e", "b1", _tok("x", "F")], {"exprVarLen": q}, mem, wraps=ws)
+            add("exprVarLen", q, "{if case=\"{var:NAME}\" ...}", ["q%s:1:1" % dots(U("{var:%s}" % nm)), _tok("x", "T"), _tok("x", "F")], {"exprVarLen": q, "trueOff": q + 24, "iifLen": q + 44}, mem, wraps=ws)
+    # ---- F4 setLen (value= first, so that ValueOffset stays small) and the same with set= first (ValueOffset = q + 20)
+    for q in N8 + ((65535, 65536) if not thorough else N16):
+        nm = _nm(q, "t")
+        mem = [(U(nm), ("a", [("s", U("x<")), ("n", 2)]))]
+        body = [_tok("v", "X1"), _tok("x", ",")]
+        ws = WRAPS if q < 1000 else ("alone",)
+        add("setLen", q, "<loop value=\"X1\" set=\"NAME\">", ["l%s:%s:2" % (dots(U(nm)), dots(U("X1")))] + body, {"setLen": q, "valueOff": 13, "contentOff": q + 26}, mem,
+            rewrites=[('set="%s" value="X1"' % nm, 'value="X1" set="%s"' % nm)], probe=r"loop\(\d+,\d+,\d+,\d+,(\d+),", wraps=ws)
+        if q < 1000:
+            add("valueOff", q + 20, "<loop set=\"NAME\" value=\"X1\"> (value text after a long set)", ["l%s:%s:2" % (dots(U(nm)), dots(U("X1")))] + body,
+                {"setLen": q, "valueOff": q + 20}, mem, probe=None, wraps=("alone", "in-if"))
+    # ---- F5 valueOff by padding / F7 groupOff by padding
+    for q in N8:
+        body = [_tok("v", "X1"), _tok("x", ",")]
+        pad = " " * (q - 13)
+        add("valueOff", q, "<loop PAD value=\"X1\" set=\"l\">", ["l%s:%s:2" % (dots(U("l")), dots(U("X1")))] + body, {"valueOff": q}, (),
+            rewrites=[('<loop set="l" value="X1">', '<loop%s value="X1" set="l">' % pad)], probe=r"loop\((?:\d+,){7}(\d+),")
+        pad2 = " " * (q - 21)
+        add("valueOff", q, "<loop set=\"l\" PAD value=\"X1\">", ["l%s:%s:2" % (dots(U("l")), dots(U("X1")))] + body, {"valueOff": q}, (),
+            rewrites=[('<loop set="l" value="X1">', '<loop set="l"%s value="X1">' % pad2)], probe=r"loop\((?:\d+,){7}(\d+),")
+    # ---- F6 valueLen / IDLength
+    for q in N8:
+        nm = _nm(q, "v")
+        add("valueLen", q, "<loop set=\"l\" value=\"NAME\">{var:NAME}", ["l%s:%s:2" % (dots(U("l")), dots(U(nm))), _tok("v", nm), _tok("x", ",")], {"valueLen": q, "varLen": q}, (),
+            probe=r"loop\((?:\d+,){8}(\d+),")
+        add("valueLen", q, "{math:{var:NAME}+1} in the loop", ["l%s:%s:1" % (dots(U("l")), dots(U(nm))), _tok("m", "{var:%s}+1" % nm)], {"valueLen": q, "exprVarLen": q}, (),
+            probe=r"loop\((?:\d+,){8}(\d+),")
+        add("valueLen", q, "<loop value=\"X2\" set=\"NAME\"> of an inner loop, NAME the outer loop's value", ["l%s:%s:1" % (dots(U("ll")), dots(U(nm))), "l%s:%s:1" % (dots(U(nm)), dots(U("X2"))), _tok("v", "X2")],
+            {"valueLen": q, "setLen": q}, [(U("ll"), ("a", [("a", [("n", 8), ("n", 9)])]))], rewrites=[('set="%s" value="X2"' % nm, 'value="X2" set="%s"' % nm)],
+            probe=r"loop\((?:\d+,){8}(\d+),", wraps=("alone", "in-if"))
+    # ---- F7 groupOff / groupLen (reference: tplgroup)
+    for q in N8:
+        items = ("a", [("o", [(U("p"), ("n", 1)), (U("g"), ("s", U("x")))]), ("o", [(U("g"), ("s", U("y"))), (U("p"), ("n", 2))]), ("o", [(U("p"), ("n", 3)), (U("g"), ("s", U("x")))])])
+        body = [_tok("v", "X1"), _tok("x", "="), "l%s:%s:1" % (dots(U("X1")), dots(U("X2"))), _tok("v", "X2[p]"), _tok("x", ";")]
+        pad = " " * (q - 13)
+        add("groupOff", q, "<loop PAD group=\"g\" set=\"d\" value=\"X1\">", ["l%s:%s:4" % (dots(U("G9")), dots(U("X1")))] + body, {"groupOff": q, "valueOff": q + 17}, [(U("d"), items)],
+            rewrites=[('set="G9" value="X1"', '%s group="g" set="d" value="X1"' % pad[:-1])], probe=r"loop\((?:\d+,){9}(\d+),", group=(items, "g"))
+        add("groupOff", q, "<loop value=\"X1\" set=\"d\" PAD group=\"g\">", ["l%s:%s:4" % (dots(U("G9")), dots(U("X1")))] + body, {"groupOff": q, "valueOff": 13}, [(U("d"), items)],
+            rewrites=[('set="G9" value="X1"', 'value="X1" set="d"%s group="g"' % (" " * (q - 32)))], probe=r"loop\((?:\d+,){9}(\d+),", group=(items, "g"))
+        gk = _nm(q, "g")
+        items2 = ("a", [("o", [(U("p"), ("n", 1)), (U(gk), ("s", U("x")))]), ("o", [(U(gk), ("n", 7)), (U("p"), ("n", 2))]), ("o", [(U("p"), ("n", 3)), (U(gk), ("s", U("x")))])])
+        add("groupLen", q, "<loop value=\"X1\" set=\"d\" group=\"KEY\">", ["l%s:%s:4" % (dots(U("G9")), dots(U("X1")))] + body, {"groupLen": q, "valueOff": 13}, [(U("d"), items2)],
+            rewrites=[('set="G9" value="X1"', 'value="X1" set="d" group="%s"' % gk)], probe=r"loop\((?:\d+,){10}(\d+),", group=(items2, gk))
+    # ---- F8 contentOff (16 bit)
+    for q in N16:
+        add("contentOff", q, "<loop set=\"l\" value=\"X1\" PAD>", ["l%s:%s:2" % (dots(U("l")), dots(U("X1"))), _tok("v", "X1"), _tok("x", ",")], {"contentOff": q}, (),
+            rewrites=[('<loop set="l" value="X1">', '<loop set="l" value="X1"%s>' % (" " * (q - 25)))], probe=r"loop\(\d+,\d+,(\d+),", wraps=("alone", "in-if") if not thorough else WRAPS)
+    # ---- F9/F10 inline if (16 bit): {if case="C" true="T" false="F"}
+    for q in N16:
+        pv = lambda k: r"iif\((?:\d+,){%d}(\d+)," % k
+        ws = ("alone", "in-loop") if not thorough else WRAPS
+        c_true = "1" + " " * (q - 19)                 # true text starts at 10 + len(C) + 8
+        add("trueOff", q, "{if case=\"1 PAD\" true=...} (also the provisional SizeT16(offset - iif_offset))", ["q%s:2:1" % dots(U(c_true)), _tok("x", "T"), _tok("v", "a"), _tok("x", "F")],
+            {"trueOff": q, "iifLen": q + 14, "falseOff": q + 18}, (), probe=pv(2), wraps=("alone",) if not thorough else ws)
+        pad = " " * (q - 19)
+        add("trueOff", q, "{if case=\"1\" PAD true=...}", ["q%s:2:1" % dots(U("1")), _tok("x", "T"), _tok("v", "a"), _tok("x", "F")], {"trueOff": q, "iifLen": q + 14, "falseOff": q + 18}, (),
+            rewrites=[('{if case="1" true="', '{if case="1"%s true="' % pad)], probe=pv(2), wraps=ws)
+        add("falseOff", q, "{if case=\"0\" true=\"T\" PAD false=...}", ["q%s:1:2" % dots(U("0")), _tok("x", "T"), _tok("x", "F"), _tok("v", "b")], {"falseOff": q, "iifLen": q + 10}, (),
+            rewrites=[('true="T" false="', 'true="T"%s false="' % (" " * (q - 29)))], probe=pv(4), wraps=ws)
+        add("trueLen", q, "true=\"x...x{var:a}\"", ["q%s:2:1" % dots(U("1")), _tok("x", "x" * (q - 7)), _tok("v", "a"), _tok("x", "F")], {"trueLen": q, "falseOff": q + 27, "iifLen": q + 30}, (), probe=pv(3), wraps=ws)
+        add("falseOff", q, "false text after a true text of q-27 units", ["q%s:2:2" % dots(U("0")), _tok("v", "a"), _tok("x", "x" * (q - 27 - 7)), _tok("x", "F"), _tok("v", "b")],
+            {"trueLen": q - 27, "falseOff": q, "iifLen": q + 10}, (), probe=pv(4), wraps=ws)
+        add("falseLen", q, "false=\"{var:b}x...x\"", ["q%s:1:2" % dots(U("0")), _tok("x", "T"), _tok("v", "b"), _tok("x", "x" * (q - 7))], {"falseLen": q, "iifLen": q + 30}, (), probe=pv(5), wraps=ws)
+        add("iifLen", q, "whole {if ...} of q units", ["q%s:1:2" % dots(U("1")), _tok("x", "x" * (q - 38)), _tok("x", "F"), _tok("v", "b")], {"iifLen": q, "trueLen": q - 38, "falseOff": q - 10}, (), probe=pv(1), wraps=ws)
+    # ---- startId (wide now): number of sub tags of the value that comes first
+    for q in N8:
+        many = [_tok("v", "a")] * q
+        add("startId", q, "true= holds q sub tags, the false value is rendered", ["q%s:%d:1" % (dots(U("0")), q)] + many + [_tok("v", "b")], {"startId": q}, (), probe=r"iif\((?:\d+,){7}(\d+),")
+        add("startId", q, "true= holds q sub tags and is rendered", ["q%s:%d:2" % (dots(U("1")), q)] + many + [_tok("v", "b"), _tok("r", "b")], {"startId": q}, (), probe=r"iif\((?:\d+,){7}(\d+),")
+        add("startId", q, "false= comes first with q sub tags", ["q%s:1:%d" % (dots(U("1")), q), _tok("v", "b")] + many, {"startId": q}, (),
+            rewrites=[("@SWAPIIF", "")], probe=r"iif\((?:\d+,){6}(\d+),", wraps=("alone", "in-loop"))
+    # ---- svarArgs
+    for q in N8:
+        args = [_tok("v", "a"), _tok("r", "b")] * (q // 2) + ([_tok("m", "1+1")] if q % 2 else [])
+        add("svarArgs", q, "{svar:p9, q sub-variables}", ["s%s:%d" % (dots(U("p9")), q)] + args, {"svarArgs": q}, [(U("p9"), ("s", U("{0}{9}{1}|{8}")))], probe=None)
+    # ---- level: q enclosing block tags around a loop; q+1 nested loops
+    for q in N8:
+        for how in ("alone", "outer-loop", "in-if"):
+            n_if = q if how == "alone" else q - 1          # the wrapper is one more enclosing block tag
+            toks = ["l%s:%s:2" % (dots(U("l")), dots(U("X1"))), _tok("v", "X1"), _tok("x", ",")]
+            if how == "outer-loop":
+                toks = toks + [_tok("v", "W"), _tok("x", ";")]   # the outer loop's variable AFTER the inner loop: Level 0 vs Level q must not collide
+            for _ in range(n_if):
+                toks = ["i1", _tok("c", "1"), "b%d" % _count(toks)] + toks
+            if how == "outer-loop":
+                toks = ["l%s:%s:%d" % (dots(U("l")), dots(U("W")), _count(toks) + 1)] + toks + [_tok("v", "W")]
+            elif how == "in-if":
+                toks = ["i1", _tok("c", "1"), "b%d" % _count(toks)] + toks
+            add("level", q, "<if> x %d around a loop (Level = q), %s" % (n_if, how), toks + [_tok("v", "a")], {"level": q}, (), probe=r"loop\((?:\d+,){12}(\d+)\)", wraps=("alone",))
+        nest = ("n", 6)
+        for _ in range(q + 1):
+            nest = ("a", [nest])
+        toks = [_tok("v", "A" if q % 2 == 0 else "B"), _tok("v", "a")]
+        for k in range(q, -1, -1):
+            var = "A" if k % 2 == 0 else "B"
+            st = "w" if k == 0 else ("A" if (k - 1) % 2 == 0 else "B")
+            toks = ["l%s:%s:%d" % (dots(U(st)), dots(U(var)), _count(toks))] + toks
+        add("level", q, "q+1 nested loops (innermost Level = q)", toks, {"level": q}, [(U("w"), nest)], probe=r"loop\((?:\d+,){12}(\d+)\)", wraps=("alone",))
+    # ---- tagOffset: every tag kind placed after q units of text
+    for q in N16:
+        tail = [_tok("v", "a"), _tok("r", "b"), _tok("m", "{var:a}+1"), "s%s:2" % dots(U("ph")), _tok("v", "a"), _tok("r", "b"),
+                "q%s:1:1" % dots(U("{var:a} > 1")), _tok("v", "b"), _tok("x", "F"),
+                "i2", _tok("c", "{var:a} == 5"), "b1", _tok("v", "b"), "e", "b1", _tok("x", "n"),
+                "l%s:%s:2" % (dots(U("l")), dots(U("X1"))), _tok("v", "X1"), _tok("m", "{var:X1}*2"), _tok("v", "a")]
+        add("tagOffset", q, "all seven tag kinds after q units of text", [_tok("x", "." * q)] + tail, {"tagOffset": q}, (), probe=None, wraps=("alone", "in-if"))
+    return cases
+
+
+def _swap_iif(units):
+    """{if case="C" true="T" false="F"} -> {if case="C" false="F" true="T"} for the first inline if whose printed true part
+    is `{var:b}` (cases marked @SWAPIIF): the false value then comes first"""
+    t = U(' true="{var:b}"')
+    i = -1
+    for k in range(len(units) - len(t)):
+        if units[k:k + len(t)] == t:
+            i = k
+            break
+    if i < 0:
+        return units, 0
+    j = len(units) - 1
+    while j > i and units[j] != 125:
+        j -= 1
+    # the inline if ends at the last '}' that closes it: find `"}` after the false value
+    end = None
+    for k in range(i + len(t), len(units) - 1):
+        if units[k] == 34 and units[k + 1] == 125 and units[k - 1] == 125 and units[k + 2:k + 3] != [34]:
+            end = k
+    if end is None:
+        return units, 0
+    false_part = units[i + len(t):end + 1]
+    return units[:i] + false_part + t + units[end + 1:], 1
+
+
+def narrow_prepare(ctx, drv, thorough):
+    """print every case through the driver, apply the attribute rewrites, compute the reference expansion.
+    Returns list of dicts with: units, doc_enc, expected ('R ...'), judged, field, q, where, probe, quant."""
+    from checks import c02 as G
+    cases = narrow_cases(thorough)
+    glines = [(i, "tplgroup 1 %s %s" % (G.enc(c["group"][0]), core.show_units(U(c["group"][1])))) for i, c in enumerate(cases) if c["group"]]
+    gout, _ = _par(drv, [l for _, l in glines], env=None)
+    grouped = {i: o for (i, _), o in zip(glines, gout)}
+    spec_lines = []
+    for i, c in enumerate(cases):
+        d = G.enc(c["doc"]).split(",")
+        if c["group"]:
+            g = grouped.get(i, "G none")
+            if g == "G none" or not g.startswith("G "):
+                spec_lines.append("bad")
+                continue
+            d[0] = "o%d" % (int(d[0][1:]) + 1)
+            d += ["k" + dots(U("G9")), g[2:]]
+        spec_lines.append("tplspec 1 %s %s" % (",".join(d), ",".join(c["toks"])))
+    sout, _ = _par(drv, spec_lines, env=None)
+    out, bad = [], 0
+    for c, o in zip(cases, sout):
+        t = o.split(" ")
+        if len(t) != 4 or t[0] != "P" or t[2] != "E":
+            bad += 1
+            continue
+        units = [int(x) for x in t[1].split(",")] if t[1] != "-" else []
+        ok = True
+        for old, new in c["rewrites"]:
+            if old == "@SWAPIIF":
+                units, hit = _swap_iif(units)
+            else:
+                units, hit = _subst(units, U(old), U(new))
+            ok = ok and hit == 1
+        if not ok:
+            bad += 1
+            continue
+        judged = all(NARROW_FIELDS[f][0] is None or v < NARROW_FIELDS[f][0] for f, v in c["quant"].items())
+        out.append({"units": units, "doc_enc": G.enc(c["doc"]), "expected": "R " + t[3], "judged": judged, "field": c["field"], "q": c["q"],
+                    "where": c["where"], "probe": c["probe"], "quant": c["quant"]})
+    if bad:
+        ctx.infra_errors.append("narrow-field stream: %d of %d cases could not be prepared (driver protocol / rewrite did not apply)" % (bad, len(cases)))
+    return out
+
+
+def c02_narrow_fields(ctx, drv, exe):
+    """C02: the documented expansion at limit-1 / limit / limit+1 of every narrow field (see NARROW_FIELDS)."""
+    import re
+    narrow_inventory_check(ctx)
+    prep = narrow_prepare(ctx, drv, ctx.thorough)
+    lines, tag_lines = [], []
+    for k, p in enumerate(prep):
+        w = "1" if (k % 4 or len(p["units"]) > 5000) else "24W"[(k // 4) % 3]
+        lines.append("tplrender %s %s %s" % (w, p["doc_enc"], core.show_units(p["units"])))
+        tag_lines.append("tpltags %s %s" % (w, core.show_units(p["units"])))
+    impl, faults = _par(exe, lines + tag_lines)
+    allx = lines + tag_lines
+    for i, kind, err in faults:
+        p = prep[i % len(prep)]
+        ctx.fail("fault:" + kind, "sanitizer fault at a narrow-field boundary (%s = %d, %s): %s" % (p["field"], p["q"], p["where"], allx[i][:200]), {"line": allx[i][:20000], "stderr": err})
+    dumps = impl[len(lines):]
+    n_j, n_k, n_bad, n_probe, probe_bad = 0, 0, 0, 0, []
+    known_hit = {}
+    for k, p in enumerate(prep):
+        o = impl[k]
+        if o.startswith("FAULT"):
+            continue
+        # the driven quantity must really be what the tag record holds (at limit-1 / for wide fields: exactly)
+        lim = NARROW_FIELDS[p["field"]][0]
+        if p["probe"] and not dumps[k].startswith("FAULT") and (lim is None or p["q"] < lim) and p["judged"]:
+            n_probe += 1
+            vals = [int(x) for x in re.findall(p["probe"], dumps[k])]
+            if p["q"] not in vals:
+                probe_bad.append("%s=%d (%s): the tag dump shows %s" % (p["field"], p["q"], p["where"], vals[:6]))
+        desc = "%s = %d (limit %s), %s; quantities %s" % (p["field"], p["q"], lim, p["where"], p["quant"])
+        if p["judged"]:
+            n_j += 1
+            if o != p["expected"]:
+                n_bad += 1
+                ctx.fail("narrow-field-expansion-differs", "render != documented expansion with every narrow field below its limit: %s: template %s... -> real %r expected %r" % (
+                    desc, txt(p["units"][:120]), line_text(o[2:])[:200], line_text(p["expected"][2:])[:200]),
+                    {"line": lines[k][:20000], "impl": o[:5000], "expected": p["expected"][:5000], "field": p["field"], "q": p["q"], "where": p["where"]})
+        else:
+            n_k += 1
+            if o != p["expected"]:
+                known_hit[p["field"]] = known_hit.get(p["field"], 0) + 1
+                ctx.fail(KNOWN_NARROW_KEY, "a quantity at or beyond the limit of an 8/16-bit tag field: %s: real %r expected %r" % (desc, line_text(o[2:])[:120], line_text(p["expected"][2:])[:120]),
+                         {"line": lines[k][:20000], "impl": o[:2000], "expected": p["expected"][:2000]})
+    if probe_bad:
+        ctx.infra_errors.append("narrow-field stream does not drive the field it names: " + "; ".join(probe_bad[:5]))
+    ctx.count("narrow-field boundaries: judged (all driven quantities below the field limits, or fields as wide as SizeT)", n_j, n_j,
+              sample={"stream": "narrow-fields", "judged": n_j, "mismatches": n_bad, "driven quantity confirmed on the tag dump": n_probe})
+    ctx.count("narrow-field boundaries: at / beyond the limit of a narrow field (finding %s)" % KNOWN_NARROW_KEY, n_k, n_k)
+    ctx.notes.append("narrow-field boundaries: %d judged cases (%d mismatches), %d cases at/beyond a limit of which the real output deviates per driven field: %s" % (
+        n_j, n_bad, n_k, ", ".join("%s:%d" % kv for kv in sorted(known_hit.items())) or "none"))
+
+
+def c01_narrow_fields(ctx, drv):
+    """C01: (compared items, fault-only items) as (w, doc code, units); the second element also holds tag-dump items
+    under the key 'tags' of the returned dict."""
+    prep = narrow_prepare(ctx, drv, ctx.thorough)
+    cmp_items, big_items, tag_items = [], [], []
+    for k, p in enumerate(prep):
+        u = p["units"]
+        w = "1" if (k % 3 or len(u) > 5000) else "24W"[(k // 3) % 3]
+        small = len(u) < 20000
+        dst = cmp_items if (small or ctx.thorough) else big_items
+        dst.append((w, p["doc_enc"], u))
+        if small:
+            tag_items.append((w, None, u))
+            # safety variants: the last unit missing, the first closing '>' / '}' missing, a different root value
+            if k % 2 == 0:
+                cmp_items.append((w, p["doc_enc"], u[:-1]))
+                cmp_items.append((w, "a2,n1,n2", u))
+            for ch in (62, 125):
+                if ch in u and k % 3 == 0:
+                    i = u.index(ch)
+                    cmp_items.append((w, p["doc_enc"], u[:i] + u[i + 1:]))
+    return {"compared": cmp_items, "faults-only": big_items, "tags": tag_items}
+
+
+def c01_narrow_big(ctx, exe, items):
+    """quick tier: the >= 20k-unit boundary templates on the real code only (the list-based Lean model needs 15-60 s for
+    each; the thorough tier compares them).  A sanitizer report is a C01 failure."""
+    from checks import c01 as C
+    lines = C.to_lines("tplrender", items)
+    keys = {}
+    impl, faults = _par(exe, lines, on_fault=lambda i, k, se: None)
+    for i, kind, err in faults:
+        key = C.fault_key(kind, err)
+        ctx.fail("fault:" + key, "fault (%s) of the real code at a 16-bit field boundary on %s" % (kind, C.describe(lines[i])[:300]),
+                 {"line": lines[i][:20000], "stderr": err, "stream": "narrow-fields-16bit"})
+    ctx.count("narrow-fields-16bit(faults only)", len(lines), len(set(lines)),
+              sample={"stream": "narrow-fields-16bit", "input": lines[0][:200] if lines else "", "impl": impl[0][:100] if lines else ""})
+
+
+# =================================================================================================
+# C04, round g — ARITHMETIC on Natural operands whose exact result lies in [2^63, 2^64) or just beside the edges
+# (seeded/C04-g2: Natural - Natural tagged the difference as signed whenever its top bit was set).  Deterministic
+# stream U + exact integer oracle on all entry points ({math:} must print the unsigned decimal).
+
+# `%` reads BOTH operands through the signed member (QExpression::operator%, Template.hpp case Remainder), so a Natural
+# >= 2^63 as dividend or divisor gives a wrong remainder on the unchanged tree (18446744073709551615 % 10 = -1).  Those
+# results are recorded, not judged, until the tree is repaired (notes/fix-expr-natural-above-int63-remainder.diff) or the
+# class is recorded as a finding; C04_NAT63_REM_JUDGED=1 judges them (key natural-above-int63-remainder).
+NAT63_REM_JUDGED = _os.environ.get("C04_NAT63_REM_JUDGED", "0") == "1"
+
+
+def _pow_targets():
+    out = []
+    for a in list(range(2, 200)) + [255, 256, 1000, 4096, 65535, 65536, 2097152, 3037000499, 3037000500, 4294967295, 4294967296]:
+        b, p = 1, a
+        while p < P64:
+            if b >= 2 and (P62 <= p):
+                out.append((a, b, p))
+            b += 1
+            p *= a
+    # keep everything in [2^63, 2^64) and a few just below 2^63
+    hi = [t for t in out if t[2] >= P63]
+    lo = sorted([t for t in out if t[2] < P63], key=lambda t: -t[2])[:8]
+    return hi + lo
+
+
+def c04_unsigned_arith(gen):
+    """stream U.  Fills gen.uarith: (text, vars) -> (kind n/i/r, value, class).  Returns the number of expressions."""
+    rng = gen.rng
+    gen.uarith = {}
+    n0 = len(gen.exprs)
+    edges = [P63 - 2, P63 - 1, P63, P63 + 1, P63 + 2, 10 ** 19, P64 - 16, P64 - 2, P64 - 1]
+    targets = edges + [rng.randrange(P63, P64) for _ in range(6)] + [rng.randrange(P62, P63) for _ in range(2)]
+    rot = [0]
+
+    def nat(v, side):
+        """a Natural operand holding v: literal, unsigned variable or computed"""
+        ps = _producers(v, side)["n"]
+        rot[0] += 1
+        return ps[rot[0] % len(ps)]
+
+    def put(text, vs, kind, value, cls="arith"):
+        gen.add_raw("U", text, vs)
+        gen.uarith.setdefault((text, vs), (kind, value, cls))
+
+    def contexts(text, vs, kind, value, cls):
+        """the operation alone and as a sub-expression of further arithmetic / a comparison"""
+        put(text, vs, kind, value, cls)
+        k = rot[0] % 6
+        if kind == "n":
+            if k == 0:
+                put("(%s) + 0" % text, vs, "n", value, cls)
+            elif k == 1 and value >= 1:
+                put("(%s) - 1" % text, vs, "n", value - 1, cls)
+            elif k == 2:
+                put("1 * (%s)" % text, vs, "n", value, cls)
+            elif k == 3:
+                put("(%s) / 2" % text, vs, "r", float(value) / 2.0, cls)
+            elif k == 4 and value + 1 < P64:
+                put("(%s) + 1" % text, vs, "n", value + 1, cls)
+            else:
+                put("(%s) / 2 > 1" % text, vs, "n", int(float(value) / 2.0 > 1.0), cls)
+            if value >= P63 and rot[0] % 5 == 0:
+                # a comparison of the huge Natural result with a small Natural: the recorded class natural-above-int63-compare
+                put("(%s) > 1" % text, vs, "n", 1, "nat63-compare" if cls == "arith" else cls)
+
+    for r in targets:
+        # ---- a - b = r (no borrow)
+        for b in (0, 1, 5, 15, P62, P63 - 1, P63, rng.randrange(1, P63)):
+            a = r + b
+            if a < P64:
+                (ta, va), (tb, vb) = nat(a, "a"), nat(b, "b")
+                contexts("%s - %s" % (ta, tb), _vars(va, vb), "n", r, "arith")
+        # ---- a + b = r
+        for a in (r, r - 1, P63 - 1, r // 2, rng.randrange(0, r + 1)):
+            b = r - a
+            if 0 <= a and 0 <= b:
+                (ta, va), (tb, vb) = nat(a, "a"), nat(b, "b")
+                contexts("%s + %s" % (ta, tb), _vars(va, vb), "n", r, "arith")
+        # ---- a * b close to r
+        for b in (1, 2, 3, 5, 7, 10, 1 << 31, (1 << 32) - 1, 1 << 32, 3037000500):
+            a = r // b
+            if a >= 1 and a * b >= P62:
+                (ta, va), (tb, vb) = nat(a, "a"), nat(b, "b")
+                contexts("%s * %s" % (ta, tb), _vars(va, vb), "n", a * b, "arith")
+        # ---- a | b = r, a & b = r
+        if r >= P63:
+            low = r - P63
+            (ta, va), (tb, vb) = nat(P63, "a"), nat(low, "b")
+            contexts("%s | %s" % (ta, tb), _vars(va, vb), "n", r, "arith")
+            (ta, va), (tb, vb) = nat(r, "a"), nat(P64 - 1, "b")
+            contexts("%s & %s" % (ta, tb), _vars(va, vb), "n", r, "arith")
+            (ta, va), (tb, vb) = nat(r | 0x5555, "a"), nat(r | 0xAAAA, "b")
+            contexts("%s & %s" % (ta, tb), _vars(va, vb), "n", (r | 0x5555) & (r | 0xAAAA), "arith")
+        # ---- a / b: real division, both operands promoted to the nearest double
+        for b in (1, 2, 3, 1000, P63, P64 - 1):
+            (ta, va), (tb, vb) = nat(r, "a"), nat(b, "b")
+            put("%s / %s" % (ta, tb), _vars(va, vb), "r", float(r) / float(b), "arith")
+        # ---- a % b with a huge operand (dividend and / or divisor)
+        for b in (10, 7, 1 << 32, P63 - 1, P63, P63 + 1, P64 - 1):
+            (ta, va), (tb, vb) = nat(r, "a"), nat(b, "b")
+            cls = "rem63" if (r >= P63 or b >= P63) else "arith"
+            # kind "m": the remainder is always tagged Integer by the code (same value, same text); either integral tag is accepted
+            put("%s %% %s" % (ta, tb), _vars(va, vb), "m", r % b, cls)
+            if b >= P63:
+                (tc, vc) = nat(12345, "a")
+                put("%s %% %s" % (tc, tb), _vars(vc, vb), "m", 12345 % b, "rem63")
+        # ---- Natural next to a Real: promotion to the nearest double
+        for (op, f) in (("+", lambda x, y: x + y), ("-", lambda x, y: x - y), ("*", lambda x, y: x * y)):
+            (ta, va) = nat(r, "a")
+            put("%s %s 0.5" % (ta, op), va and _vars(va) or "-", "r", f(float(r), 0.5), "arith")
+            put("{var:b} %s %s" % (op, ta), _vars(va, {"b": _r(2.0)}), "r", f(2.0, float(r)), "arith")
+    # ---- borrow just beside the edges: the difference is negative and fits the signed range
+    for a, b in ((P63, P63 + 1), (P63 - 1, P63), (P64 - 2, P64 - 1), (0, P63 - 1), (1, P63), (5, P63 + 4), (P63 + 7, P64 - 1), (P62, P63 + P62 - 1)):
+        (ta, va), (tb, vb) = nat(a, "a"), nat(b, "b")
+        if -(P63) <= a - b < 0:
+            contexts("%s - %s" % (ta, tb), _vars(va, vb), "i", a - b, "arith")
+    # ---- a ^ b in [2^63, 2^64) and just below 2^63
+    for a, b, p in _pow_targets():
+        (ta, va), (tb, vb) = nat(a, "a"), nat(b, "b")
+        contexts("%s ^ %s" % (ta, tb), _vars(va, vb), "n", p, "arith")
+    # ---- chains staying unsigned: (2^64-1) - x - y, sums of three, product minus one
+    for x, y in ((1, 1), (P62, P62), (P63 - 1, 1), (15, P62)):
+        (ta, va) = nat(P64 - 1, "a")
+        put("%s - %d - %d" % (ta, x, y), _vars(va), "n", P64 - 1 - x - y)
+        put("%d + %d + %s" % (x, y, nat(P63, "b")[0].replace("{var:b}", "9223372036854775808")), "-", "n", x + y + P63) if x + y + P63 < P64 else None
+    put("4294967296 * 4294967295 + 4294967295", "-", "n", (1 << 32) * ((1 << 32) - 1) + (1 << 32) - 1)
+    put("3037000500 * 3037000500 - 1", "-", "n", 3037000500 ** 2 - 1)
+    put("(18446744073709551615 - 15) / 2 > 1", "-", "n", 1)
+    return len(gen.exprs) - n0
+
+
+def c04_unsigned_arith_oracle(ctx, exe, gen, exprs, meta, lines, impl, units_of):
+    """exact oracle for stream U on {math:} (unsigned / signed decimal, the formatter's text for a Real), <if case>, the inline
+    if (truth = value > 0) and ParseExpressions+Evaluate (kind, 64-bit payload, truth)."""
+    ua = getattr(gen, "uarith", {})
+    idx = [k for k, e in enumerate(exprs) if e["stream"] == "U" and (e["text"], e["vars"]) in ua]
+    qlines = ["expeval q %s %s" % (exprs[k]["vars"], units_of(exprs[k]["text"])) for k in idx]
+    hexes = sorted({_r(v)[1:] for (kind, v, _) in ua.values() if kind == "r"})
+    out, faults = _par(exe, qlines + ["expfmt " + h for h in hexes])
+    for i, kind, err in faults:
+        ctx.fail("fault:" + kind, "sanitizer fault on unsigned arithmetic near 2^63 / 2^64: " + (qlines + hexes)[i][:200], {"line": (qlines + hexes)[i][:2000], "stderr": err})
+    qout, fmt = out[:len(qlines)], dict(zip(hexes, out[len(qlines):]))
+    results = [(lines[i], impl[i], exprs[k], mode) for i, (k, mode) in enumerate(meta) if exprs[k]["stream"] == "U"]
+    results += [(qlines[j], qout[j], exprs[k], "q") for j, k in enumerate(idx)]
+    n, nbad, per_cls, obs, obs_wrong = 0, 0, {}, 0, []
+    for line, o, e, mode in results:
+        info = ua.get((e["text"], e["vars"]))
+        if info is None or o.startswith("FAULT"):
+            continue
+        kind, v, cls = info
+        truth = 1 if v > 0 else 0
+        if mode == "p" and kind == "m":
+            want = o if o in ("V n %d %d" % (v, truth), "V i %d %d" % (v, truth)) and v < P63 else "V n %d %d" % (v, truth)
+        elif mode == "p":
+            want = "V n %d %d" % (v, truth) if kind == "n" else "V i %d %d" % (v % P64, truth) if kind == "i" else "V r %s %d" % (_r(v)[1:], truth)
+        elif mode == "m":
+            if kind == "r":
+                f = fmt.get(_r(v)[1:], "")
+                if not f.startswith("X "):
+                    continue
+                want = "M " + f[2:]
+            else:
+                want = "M " + units_of(str(v))
+        else:
+            want = "%s %d" % ("I" if mode == "i" else "Q", 84 if truth else 70)
+        if cls == "rem63" and not NAT63_REM_JUDGED:
+            obs += 1
+            if o != want and mode == "p" and len(obs_wrong) < 6:
+                obs_wrong.append("%s [%s] -> %s (exact: %d)" % (e["text"], e["vars"], o, v))
+            continue
+        n += 1
+        per_cls[cls] = per_cls.get(cls, 0) + 1
+        if o != want:
+            nbad += 1
+            if nbad <= 300:
+                key = {"arith": "oracle:unsigned-arith", "nat63-compare": "natural-above-int63-compare", "rem63": "natural-above-int63-remainder"}[cls]
+                shown = o if mode == "p" else repr(line_text(o[2:]))
+                ctx.fail(key, "arithmetic on unsigned operands with an exact result near 2^63 / 2^64 differs from exact arithmetic (%s, class %s): %r (vars %s) -> %s, expected %s" % (
+                    {"p": "Evaluate", "m": "{math:}", "i": "<if case>", "q": "inline if"}[mode], cls, e["text"], e["vars"], shown,
+                    want if mode == "p" else repr(line_text(want[2:]))),
+                    {"line": line, "text": e["text"], "vars": e["vars"], "mode": mode, "impl_output": o, "expected": want, "class": cls})
+    ctx.count("S3-unsigned-arith (U stream: - + * / % ^ | & with exact results in [2^63, 2^64) and beside the edges, four entry points)", n, n,
+              sample={"stream": "S3-unsigned-arith", "cases": n, "failures": nbad, "per class": per_cls})
+    ctx.notes.append("stream U: %d judged results (%s), %d failures; %d results of %% with a Natural operand >= 2^63 are observed only (operator%% reads both operands "
+                     "through the signed member); examples where the code differs from exact arithmetic: %s" % (
+                         n, ", ".join("%s:%d" % kv for kv in sorted(per_cls.items())), nbad, obs, "; ".join(obs_wrong) or "none"))
